@@ -22,14 +22,14 @@ TRUSTED = ['pbt/cellsim.py', 'pbt/mastersim.py', 'pbt/fakezk.py', 'pbt/oracles.p
 BUDGET = {'quick': 6000, 'thorough': 160000}
 
 PROFILE = {
-    'weights': {'app': 14, 'clone': 6, 'prio': 4, 'down': 2, 'rm': 3, 'adv': 4},
-    'force': ['clone', 'adv'],
+    'weights': {'app': 14, 'clone': 6, 'prio': 4, 'down': 2, 'rm': 3, 'adv': 4, 'freezeflip': 3},
+    'force': ['clone', 'adv', 'freezeflip'],
     'demand_hi': 10,
     'pre': (4, 16),
 }
 
 
-E2_PROFILE = {'weights': {'app': 16, 'prio': 4, 'down': 2, 'rm': 3, 'finish': 2}, 'demand_hi': 10, 'pre': (3, 12)}
+E2_PROFILE = {'weights': {'app': 16, 'prio': 4, 'down': 2, 'rm': 3, 'finish': 2, 'freezeflip': 3}, 'force': ['freezeflip'], 'demand_hi': 10, 'pre': (3, 12)}
 
 
 def strategy(tier):
